@@ -161,6 +161,23 @@ class Siblings:
         return out
 
 
+def marker_part_terms(sib: "Siblings"):
+    """grouping sequence after the SubqueryMarker in the three siblings (the visible sequence of the marker depends on
+    the later pipeline through `needed_cols` and is excluded); returns {sibling: normal form}"""
+    import copy as _copy
+
+    mk = sib.sym.cls("SubqueryMarker")
+    out = {}
+    for name, cfg in sib.cfgs.items():
+        cfg2 = _copy.copy(cfg)
+        cfg2.outputs = {"PART": cfg.outputs["PART"]}
+        slicer = Slicer(sib.sym, cfg2.module, cfg2.subject, mk)
+        it = S.SeqInterp(cfg2, slicer, "SubqueryMarker")
+        it.run(slicer.slice(cfg2.func.body))
+        out[name] = S.normalise(_rename_subject(it.output("PART"), cfg2.subject), "SubqueryMarker")
+    return out
+
+
 def _rename_subject(t, subject):
     if not isinstance(t, tuple):
         return t
